@@ -200,6 +200,47 @@ fn roundtrip(table: &Table, seg_size: u32, k: u32) -> Result<Table, String> {
     Ok(out)
 }
 
+/// Full path: store the batches through a real Archive file (ZSTD, 50-sample batches), reopen
+/// it and load everything back the way the decompressor does.
+fn roundtrip_file(table: &Table, seg_size: u32, k: u32, path: &str) -> Result<Table, String> {
+    use ragc_common::Archive;
+    let mut w = build(table, seg_size, k);
+    let n = w.get_no_samples();
+    {
+        let mut a = Archive::new_writer();
+        a.open(path).map_err(|e| format!("error: open: {e}"))?;
+        w.prepare_for_compression(&mut a).map_err(|e| format!("error: prepare: {e}"))?;
+        w.store_batch_sample_names(&mut a).map_err(|e| format!("error: store names: {e}"))?;
+        let mut i = 0;
+        while i < n {
+            let j = (i + 50).min(n);
+            w.store_contig_batch(&mut a, i, j).map_err(|e| format!("error: store batch: {e}"))?;
+            i = j;
+        }
+        a.flush_buffers().map_err(|e| format!("error: flush: {e}"))?;
+        a.close().map_err(|e| format!("error: close: {e}"))?;
+    }
+    let mut a = Archive::new_reader();
+    a.open(path).map_err(|e| format!("error: reopen: {e}"))?;
+    let mut r = CollectionV3::new();
+    r.set_config(seg_size, k, None);
+    r.prepare_for_decompression(&a).map_err(|e| format!("error: prepare read: {e}"))?;
+    r.load_batch_sample_names(&mut a).map_err(|e| format!("error: load names: {e}"))?;
+    let nb = r.get_no_contig_batches(&a).map_err(|e| format!("error: batches: {e}"))?;
+    // load all batches twice: the second pass must be idempotent (readers reload on demand)
+    for _pass in 0..2 {
+        for b in 0..nb {
+            r.load_contig_batch(&mut a, b).map_err(|e| format!("error: load batch {b}: {e}"))?;
+        }
+    }
+    let mut out: Table = Vec::new();
+    for s in r.get_samples_list(false) {
+        let d = r.get_sample_desc(&s).ok_or_else(|| format!("error: sample {:?} lost", s))?;
+        out.push((s, d));
+    }
+    Ok(out)
+}
+
 fn branch_counts(rep: &mut Report, table: &Table, seg_size: u32, k: u32) {
     // which codec branches did this table exercise? (computed from the table itself)
     for (_, contigs) in table {
@@ -300,7 +341,20 @@ fn table_json(t: &Table, limit: usize) -> String {
 pub fn run(args: &Args, rep: &mut Report) {
     std::panic::set_hook(Box::new(|_| {}));
     let miri = cfg!(miri);
-    let n = args.get_u64("n", if miri { 6 } else if args.tier_thorough { 60_000 } else { 2_500 });
+    let full = args.get("full") == Some("1");
+    let path = format!("{}/vq-catalogue-{}-{}.agc", args.get("scratch").unwrap_or("/tmp"), std::process::id(), args.shard);
+    let n = args.get_u64(
+        "n",
+        if miri {
+            6
+        } else if full {
+            if args.tier_thorough { 640 } else { 32 }
+        } else if args.tier_thorough {
+            60_000
+        } else {
+            2_500
+        },
+    );
     let only: Option<u64> = args.case.as_ref().and_then(|c| c.parse().ok());
     for i in 0..n {
         if !args.mine(i) {
@@ -311,7 +365,7 @@ pub fn run(args: &Args, rep: &mut Report) {
                 continue;
             }
         }
-        let mut rng = Rng::derive(args.seed, 0xC03, i);
+        let mut rng = Rng::derive(args.seed, if full { 0xC03F } else { 0xC03 }, i);
         let (mut table, seg_size, k) = gen_table(&mut rng, miri);
         // samples without contigs cannot be registered through the public API
         table.retain(|(_, c)| !c.is_empty());
@@ -319,7 +373,7 @@ pub fn run(args: &Args, rep: &mut Report) {
             continue;
         }
         rep.evaluations += 1;
-        let r = catch_unwind(AssertUnwindSafe(|| roundtrip(&table, seg_size, k)));
+        let r = catch_unwind(AssertUnwindSafe(|| if full { roundtrip_file(&table, seg_size, k, &path) } else { roundtrip(&table, seg_size, k) }));
         let verdict = match r {
             Err(_) => Err("panic: codec panicked".to_string()),
             Ok(Err(e)) => Err(e),
@@ -356,6 +410,7 @@ pub fn run(args: &Args, rep: &mut Report) {
             Ok(()) => {
                 branch_counts(rep, &table, seg_size, k);
                 rep.max("max_samples", table.len() as u64);
+                rep.count(if full { "tables_through_archive_file" } else { "tables_through_codec_only" }, 1);
                 if table.len() > 50 {
                     rep.count("tables_with_several_batches", 1);
                 }
@@ -378,7 +433,7 @@ pub fn run(args: &Args, rep: &mut Report) {
                 &format!("C03:{}", w.split(':').next().unwrap_or("")),
                 jobj(&[
                     ("what", jstr(&vcommon::clip(&w, 1500))),
-                    ("workload", jstr("vq names")),
+                    ("workload", jstr(if full { "vq names full=1" } else { "vq names" })),
                     ("seed", args.seed.to_string()),
                     ("case", i.to_string()),
                     ("segment_size", seg_size.to_string()),
@@ -388,4 +443,5 @@ pub fn run(args: &Args, rep: &mut Report) {
             ),
         }
     }
+    let _ = std::fs::remove_file(&path);
 }
